@@ -104,7 +104,7 @@ PROPS = {
                 rule='the same histories: yaep_error_code / message after every call, return codes of yaep_parse for invalid token codes (below, between and above the declared codes), undefined grammars, NULL allocator with non-NULL free; previous values returned by all setters incl. out-of-range lookahead levels',
                 assumptions=COMMON_ASSUME),
     'C17': dict(level='fault_enumeration', theorem_modules=['C14'], min_theorems=4, tags=['C17', 'C12', 'C15', 'C14'], crash_counts=True, runner=None,
-                flavours=['c', 'cxx'],
+                flavours=['c', 'cxx', 'c-fi'],
                 rule='scenarios (callback-defined and description-defined grammars, parse with and without error recovery, all parses with cost pruning, dynamic lookahead, a second live object): the fault-free run counts the library allocations of yaep_create_grammar / the definition / yaep_parse; then for every k (thorough: all k; quick: a strided sample incl. the first and last 10) the k-th allocation of that call fails: expected NULL resp. YAEP_NO_MEMORY with error code 1, no sanitizer report, yaep_free_grammar succeeds, the other object still parses as the model says; non-trivial = a variant in which the injected failure actually fired',
                 assumptions=['malloc/calloc/realloc/free of allocate.c are replaced by counting, failing wrappers (no source hook); operator new of the C++ containers is not injected',
                              'which blocks the longjmp unwinding leaks is not judged (leaks are reported as statistics only); partial: memory effects are runtime truth (ASan)',
@@ -158,6 +158,9 @@ def fault_scenarios(seed, tier):
         g = gen.gen_grammar(r, err_prob=0.4)
         ins = gen.gen_inputs(r, g, 1, 7)[0]
         plans.append((g, None, [g.code(t) for t in ins], dict(rec=r.choice([0, 1]), one=r.choice([0, 1]), cost=r.choice([0, 1]), la=r.choice([0, 1, 2]))))
+    # the default tree allocator (parse_alloc == NULL): its requests are internal requests too
+    plans.append((amb, None, [97, 97, 97], dict(one=0, rec=0, alloc='null')))
+    plans.append((fixed, None, [97, 43, 97], dict(rec=1, alloc='null')))
     for idx, (g, text, toks, cfg) in enumerate(plans):
         lines = ['case F%d-%d fault' % (seed, idx)]
         if g is not None: lines += g.text(0)
@@ -168,8 +171,10 @@ def fault_scenarios(seed, tier):
         # yaep_parse_grammar call of the process is the one that fails)
         ops = ['create 1', 'def 1 0' if g is not None else 'descr 1 0 1', 'create 0']
         ops.append('def 0 0' if g is not None else 'descr 0 0 1')
-        for k, v in cfg.items(): ops.append('set 0 %s %d' % (k, v))
-        ops.append('parse 0 user user 0 %s' % ' '.join(map(str, toks)))
+        for k, v in cfg.items():
+            if k != 'alloc': ops.append('set 0 %s %d' % (k, v))
+        al = cfg.get('alloc', 'user')
+        ops.append('parse 0 %s %s 0 %s' % (al, al, ' '.join(map(str, toks))))
         scen.append((lines, ops))
     return scen
 
@@ -183,12 +188,15 @@ def run_c17(pid, P, tier, seed):
     for flavour in P.get('flavours', ['c']):
         # 1. fault-free runs: allocations per op
         base = []
-        for lines, ops in scen:
+        # flavour `c-fi`: the malloc of parse_alloc_default fails too; only the scenarios that use it
+        scen_f = [(l, o) for l, o in scen if any(' null null ' in x for x in o)] if flavour.endswith('-fi') else \
+                 [(l, o) for l, o in scen if not any(' null null ' in x for x in o)]
+        for lines, ops in scen_f:
             c = list(lines) + ['op %d %s' % (i + 1, o) for i, o in enumerate(ops)] + ['op %d free 0' % (len(ops) + 1), 'op %d free 1' % (len(ops) + 2), 'end']
             base.append(c)
         res = pipeline.run_cases(base, flavour)
         variants = []
-        for (lines, ops), c in zip(scen, base):
+        for (lines, ops), c in zip(scen_f, base):
             cid = c[0].split()[1]
             obs = res.obs.get(cid, [])
             allocs = {}
